@@ -8,6 +8,7 @@ mod c12;
 mod c11;
 mod canon;
 mod doc;
+mod stack;
 
 fn main() {
     let mode = std::env::args().nth(1).unwrap_or_default();
@@ -26,7 +27,10 @@ fn main() {
         let m = mode.clone();
         let res = std::panic::catch_unwind(move || dispatch(&m, &l));
         match res {
-            Ok(s) => writeln!(out, "{s}").unwrap(),
+            Ok(s) => {
+                writeln!(out, "{s}").unwrap();
+                out.flush().unwrap();
+            }
             Err(e) => {
                 let msg = if let Some(s) = e.downcast_ref::<String>() {
                     s.clone()
@@ -48,6 +52,7 @@ fn dispatch(mode: &str, line: &str) -> String {
         "c11" => c11::run(line),
         "doc" => doc::run_doc(line),
         "val" => doc::run_val(line),
+        "stack" => stack::run(line),
         _ => format!("bad-mode {mode}"),
     }
 }
